@@ -30,7 +30,7 @@ fn key_hex(ac: &AbstractCall) -> String {
 /// distinct abstract calls it contains, so that the driver can obtain cold-start references.
 fn gen_session(seed: u64, idx: u64) {
     let mut rng = simcore::Rng::derive(seed, idx, 1600);
-    let cfg = GenCfg { max_threads: 4, max_calls: 3 };
+    let cfg = GenCfg { max_threads: 4, max_calls: 3, long_inputs: false };
     let mut ws = vec![];
     // three of four sessions are "phased" (all threads first-use the same feature at the same
     // moment, several features per session); the rest are free-form like the shuttle workloads
